@@ -251,6 +251,7 @@ def run_case(ctx, case):
     # supplied centres are carried (same positions)
     # normalisation changes lengths only
     before = {k: np.stack(final[k + "_xyz"], axis=-1) for k in ("node", "edge", "face")}
+    after = {}
     try:
         g.normalize_cartesian_coordinates()
         after = {k: np.stack(read_group(g, k + "_xyz"), axis=-1) for k in ("node", "edge", "face")}
@@ -262,6 +263,32 @@ def run_case(ctx, case):
             ctx.check("normalize_gives_unit_length", dev < utol, sig, {"max_dev": dev, "case": case})
     except Exception as e:
         ctx.check("no_exception", False, {"stage": "normalize", "exc": core.exc_sig(e)}, {"exc": repr(e), "case": case})
+    # a history: the face centres are constructed again on request (Grid.construct_face_centers, either method) after every
+    # group has been read / cached - whatever it stores, the two systems must still denote the same points, stay in range, and
+    # the node and edge groups must not move
+    method = ["cartesian average", "welzl"][case["cseed"] % 3 == 0 and m.n_face <= 80]
+    try:
+        import warnings
+
+        with warnings.catch_warnings():
+            warnings.simplefilter("ignore")
+            g.construct_face_centers(method=method)
+        lon, lat = read_group(g, "face_ll", rev=rev)
+        xyz = np.stack(read_group(g, "face_xyz"), axis=-1)
+        sig = {"kind": "face", "prov": prov["face"], "after": "construct_face_centers", "method": method}
+        ok = bool(np.all(lon >= -180.0) and np.all(lon <= 180.0) and np.all(lat >= -90.0) and np.all(lat <= 90.0))
+        ctx.check("lon_lat_range", ok, sig, {"lon_min": float(lon.min()), "lon_max": float(lon.max()), "case": case})
+        nrm = np.linalg.norm(xyz, axis=-1)
+        ang = ref.angle(ref.lonlat_to_xyz(lon, lat), xyz)
+        tol = np.where(np.abs(xyz[:, 2] / nrm) > 1 - 1e-8, 2e-4, 1e-6 if f32 else 1e-9)
+        bad = np.argwhere(ang > tol)
+        ctx.check("same_point", len(bad) == 0, sig,
+                  None if len(bad) == 0 else {"index": int(bad[0][0]), "lonlat": [float(lon[bad[0][0]]), float(lat[bad[0][0]])], "xyz": xyz[bad[0][0]].tolist(), "angle_rad": float(ang[bad[0][0]]), "order": order, "case": case})
+        for k in ("node", "edge"):
+            now = np.stack(read_group(g, k + "_xyz"), axis=-1)
+            ctx.check("first_read_equals_final", bool(np.array_equal(now, after[k] if k in after else before[k])), {"kind": k, "prov": prov[k], "after": "construct_face_centers"}, {"case": case})
+    except Exception as e:
+        ctx.check("no_exception", False, {"stage": "construct_face_centers", "method": method, "exc": core.exc_sig(e)}, {"exc": repr(e), "case": case})
     if case["node"] != "ll" or prov["face"] != "none" or prov["edge"] != "none" or near_special:
         ctx.mark_nontrivial()
     ctx.observe("prov_node_" + case["node"])
